@@ -1,10 +1,13 @@
 //! C16: output is delivered in order, exactly once; frames are never torn.
 //!
 //! Stage 1 (`queue`): random operation sequences on the public `IOQueue` API.
-//!   * correspondence: the Lean model `SurfModel.IOQueue` must print the same observation after every call
-//!     (bytes returned by `read`, `len()`, `chunks_count()`, `is_empty()`, `as_slice()`);
+//!   * correspondence: the Lean model `SurfModel.IOQueue` must print the same observation after every call, in
+//!     two line classes: `c16 qa` = behaviour on the byte level (bytes returned by `read`, `len()`), `c16 qr` =
+//!     representation only (`chunks_count()`, `is_empty()`, `as_slice()`: a mismatch there alone is a
+//!     difference in chunking, not in bytes);
 //!   * oracle: an independent byte deque with flush marks (the textbook FIFO the theorems refine to).
-//! Stage 2 (`pty`): the real `UnixTerminal` on the slave side of a pseudo-terminal, see `pty` below.
+//! Stage 2 (`pty`): the real `UnixTerminal` on the slave side of a pseudo-terminal, in both size modes (ioctl /
+//! escape sequences), and the real `Terminal::run_render` loop with its frame-drop policy; see `pty` below.
 use serde_json::{Value, json};
 use std::collections::VecDeque;
 use std::io::{Read, Write};
@@ -92,9 +95,18 @@ mod pty {
         /// consecutive empty 50 ms polls observed by the peer (reset by every byte received)
         idle: AtomicUsize,
         stop: AtomicBool,
+        /// the peer does not read while set (stalled terminal emulator)
+        pause: AtomicBool,
+        /// answer the size query `ESC[18t ESC[14t` (the ioctl reports no pixel size, so the terminal then takes
+        /// its size from escape sequences: `UnixTerminal::size` is `Some`)
+        esc: bool,
+        rows: u16,
+        cols: u16,
     }
 
-    fn open_pty() -> Result<(RawFd, RawFd), String> {
+    pub const SIZE_QUERY: &[u8] = b"\x1b[18t\x1b[14t";
+
+    fn open_pty(rows: u16, cols: u16) -> Result<(RawFd, RawFd), String> {
         unsafe {
             let master = libc::posix_openpt(libc::O_RDWR | libc::O_NOCTTY);
             if master < 0 {
@@ -114,7 +126,7 @@ mod pty {
                 libc::close(master);
                 return Err("open slave failed".into());
             }
-            let ws = libc::winsize { ws_row: 50, ws_col: 132, ws_xpixel: 0, ws_ypixel: 0 };
+            let ws = libc::winsize { ws_row: rows, ws_col: cols, ws_xpixel: 0, ws_ypixel: 0 };
             libc::ioctl(master, libc::TIOCSWINSZ, &ws);
             let fl = libc::fcntl(master, libc::F_GETFL);
             libc::fcntl(master, libc::F_SETFL, fl | libc::O_NONBLOCK);
@@ -132,6 +144,10 @@ mod pty {
             let stopping = shared.stop.load(Ordering::SeqCst);
             if stopping && shared.idle.load(Ordering::SeqCst) >= 2 {
                 break;
+            }
+            if !stopping && shared.pause.load(Ordering::SeqCst) {
+                std::thread::sleep(Duration::from_millis(1));
+                continue;
             }
             // rate: a phase of `phase_left` reads in one mode
             if phase_left == 0 {
@@ -174,30 +190,97 @@ mod pty {
                 continue;
             }
             let data = &buf[..n as usize];
-            // DA1 query, possibly split over reads
+            // queries, possibly split over reads; replies in the order of the queries
             tail.extend_from_slice(data);
-            let mut answers = 0;
+            let mut replies: Vec<u8> = Vec::new();
             let mut i = 0;
-            while i + 3 <= tail.len() {
-                if &tail[i..i + 3] == b"\x1b[c" {
-                    answers += 1;
+            while i < tail.len() {
+                let rest = &tail[i..];
+                if rest.starts_with(b"\x1b[c") {
+                    replies.extend_from_slice(b"\x1b[?62;4c");
                     i += 3;
+                } else if shared.esc && rest.starts_with(SIZE_QUERY) {
+                    replies.extend_from_slice(
+                        format!("\x1b[8;{};{}t\x1b[4;{};{}t", shared.rows, shared.cols, shared.rows as usize * 20, shared.cols as usize * 10).as_bytes(),
+                    );
+                    i += SIZE_QUERY.len();
+                } else if rest.len() < SIZE_QUERY.len() && (b"\x1b[c".starts_with(rest) || SIZE_QUERY.starts_with(rest)) {
+                    break; // possibly the beginning of a query: keep it for the next read
                 } else {
                     i += 1;
                 }
             }
-            let keep = tail.len().min(2);
-            let t2 = tail[tail.len() - keep..].to_vec();
-            tail = if answers > 0 && t2.ends_with(b"c") { Vec::new() } else { t2 };
+            tail.drain(..i);
             {
                 let mut rec = shared.received.lock().unwrap();
                 rec.extend_from_slice(data);
                 shared.count.store(rec.len(), Ordering::SeqCst);
             }
             shared.idle.store(0, Ordering::SeqCst);
-            for _ in 0..answers {
-                let reply = b"\x1b[?62;4c";
-                unsafe { libc::write(master, reply.as_ptr() as *const libc::c_void, reply.len()) };
+            if !replies.is_empty() {
+                unsafe { libc::write(master, replies.as_ptr() as *const libc::c_void, replies.len()) };
+            }
+        }
+    }
+
+    /// pseudo-terminal + peer thread of one session
+    struct Rig {
+        master: RawFd,
+        keep: RawFd,
+        shared: Arc<Shared>,
+        thread: Option<std::thread::JoinHandle<()>>,
+    }
+
+    impl Rig {
+        fn open(profile: u64, peer_seed: u64, esc: bool, rows: u16, cols: u16) -> Result<(Rig, RawFd), String> {
+            let (master, slave) = open_pty(rows, cols)?;
+            // our own descriptor of the slave for the whole session: the pty must outlive the terminal
+            let keep = unsafe { libc::dup(slave) };
+            let shared = Arc::new(Shared {
+                received: Mutex::new(Vec::new()), count: AtomicUsize::new(0), idle: AtomicUsize::new(0),
+                stop: AtomicBool::new(false), pause: AtomicBool::new(false), esc, rows, cols,
+            });
+            let thread = {
+                let shared = shared.clone();
+                let rng = Rng(peer_seed);
+                std::thread::spawn(move || peer(master, shared, rng, profile))
+            };
+            Ok((Rig { master, keep, shared, thread: Some(thread) }, slave))
+        }
+        /// the real terminal on the slave; what the constructor queued is sent and has reached the peer.
+        /// Returns the terminal and the number of bytes sent so far.
+        fn boot(&self, slave: RawFd) -> Result<(SystemTerminal, usize), String> {
+            let mut term = SystemTerminal::new_from_fd(unsafe { OwnedFd::from_raw_fd(slave) })
+                .map_err(|e| format!("constructor:{e:?}"))?;
+            let t0 = Instant::now();
+            while term.frames_pending() > 0 && t0.elapsed() < Duration::from_secs(20) {
+                if term.poll(Some(Duration::from_millis(1))).is_err() {
+                    break;
+                }
+            }
+            let s0 = term.stats().send;
+            while self.shared.count.load(Ordering::SeqCst) < s0 && t0.elapsed() < Duration::from_secs(40) {
+                std::thread::sleep(Duration::from_millis(1));
+            }
+            if term.frames_pending() > 0 || self.shared.count.load(Ordering::SeqCst) != s0 {
+                drop(term);
+                return Err("setup-not-drained".into());
+            }
+            let escape_mode = term.size().map(|s| s.pixels.height > 0 && s.pixels.width > 0).unwrap_or(false);
+            if escape_mode != self.shared.esc {
+                drop(term);
+                return Err("size-mode-not-as-requested".into());
+            }
+            Ok((term, s0))
+        }
+        fn finish(mut self) {
+            self.shared.stop.store(true, Ordering::SeqCst);
+            if let Some(t) = self.thread.take() {
+                let _ = t.join();
+            }
+            unsafe {
+                libc::close(self.keep);
+                libc::close(self.master);
             }
         }
     }
@@ -217,6 +300,10 @@ mod pty {
 
     enum Evt {
         Payload(usize),
+        /// bytes the library queues on its own (size query re-issued by `frames_drop` in escape-size mode):
+        /// the property does not demand them, so the stream oracle accepts the stream with or without them —
+        /// but if present they must be whole and at this place
+        LibPayload(usize),
         Mark,
         Drop(usize),
     }
@@ -248,6 +335,21 @@ mod pty {
             while at < events.len() {
                 match &events[at] {
                     Evt::Payload(i) => kept.push(*i),
+                    Evt::LibPayload(i) => {
+                        for with in [true, false] {
+                            let mut k2 = kept.clone();
+                            if with {
+                                k2.push(*i);
+                            }
+                            let mut m2 = marks.clone();
+                            if let Some(r) = rec(payloads, events, at + 1, &mut k2, &mut m2, got, complete, best) {
+                                result = Some(r);
+                                break;
+                            }
+                        }
+                        recursed = true;
+                        break;
+                    }
                     // a mark = "everything written so far is a complete frame": number of payloads written
                     Evt::Mark => marks.push(kept.last().map(|i| i + 1).unwrap_or(0)),
                     Evt::Drop(sent) => {
@@ -303,7 +405,7 @@ mod pty {
                     pos += p.len();
                 }
                 if ok {
-                    let all = events.iter().filter(|e| matches!(e, Evt::Payload(_))).count();
+                    let all = events.iter().filter(|e| matches!(e, Evt::Payload(_))).count() + kept.iter().filter(|i| payloads[**i] == SIZE_QUERY && !events.iter().any(|e| matches!(e, Evt::Payload(j) if j == *i))).count();
                     result = Some(all - kept.len());
                 } else if common >= best.0 {
                     *best = (common, format!("{} bytes, fnv {:016x}", total, {
@@ -331,67 +433,37 @@ mod pty {
         }
     }
 
-    pub fn run_session(ops: &[TOp], profile: u64, peer_seed: u64, want_trace: bool) -> SessionOutcome {
+    pub fn run_session(ops: &[TOp], profile: u64, peer_seed: u64, esc: bool, want_trace: bool) -> SessionOutcome {
         let mut outcome = SessionOutcome {
             inconclusive: None, failure: None, trace: None, bytes: 0, short_writes: 0, eagain: 0, tty_writes: 0,
             dropped_payloads: 0, executed: Vec::new(),
         };
-        let (master, slave) = match open_pty() {
+        let (rig, slave) = match Rig::open(profile, peer_seed, esc, 50, 132) {
             Ok(x) => x,
             Err(e) => {
                 outcome.inconclusive = Some(format!("no-pty:{e}"));
                 return outcome;
             }
         };
-        // our own descriptor of the slave for the whole session: the pty must outlive the terminal
-        let keep = unsafe { libc::dup(slave) };
-        let shared = Arc::new(Shared {
-            received: Mutex::new(Vec::new()), count: AtomicUsize::new(0), idle: AtomicUsize::new(0), stop: AtomicBool::new(false),
-        });
-        let peer_thread = {
-            let shared = shared.clone();
-            let rng = Rng(peer_seed);
-            std::thread::spawn(move || peer(master, shared, rng, profile))
-        };
+        let shared = rig.shared.clone();
+        let booted = rig.boot(slave);
         let finish = |outcome: SessionOutcome| {
-            shared.stop.store(true, Ordering::SeqCst);
-            let _ = peer_thread.join();
-            unsafe {
-                libc::close(keep);
-                libc::close(master);
-            }
+            rig.finish();
             outcome
         };
-        let term = SystemTerminal::new_from_fd(unsafe { OwnedFd::from_raw_fd(slave) });
-        let mut term = match term {
-            Ok(t) => t,
+        let (mut term, s0) = match booted {
+            Ok(x) => x,
             Err(e) => {
-                outcome.inconclusive = Some(format!("constructor:{e:?}"));
+                outcome.inconclusive = Some(e);
                 return finish(outcome);
             }
         };
-        // send what the constructor left in the queue, wait until the peer has all of it
-        let t0 = Instant::now();
-        while term.frames_pending() > 0 && t0.elapsed() < Duration::from_secs(20) {
-            if term.poll(Some(Duration::from_millis(1))).is_err() {
-                break;
-            }
-        }
-        let s0 = term.stats().send;
-        while shared.count.load(Ordering::SeqCst) < s0 && t0.elapsed() < Duration::from_secs(40) {
-            std::thread::sleep(Duration::from_millis(1));
-        }
-        if term.frames_pending() > 0 || shared.count.load(Ordering::SeqCst) != s0 {
-            outcome.inconclusive = Some("setup-not-drained".into());
-            drop(term);
-            return finish(outcome);
-        }
         let _ = verif_c16::take_trace();
         let mut enc = TTYEncoder::new(term.capabilities().clone());
 
         let mut payloads: Vec<Vec<u8>> = Vec::new();
         let mut events: Vec<Evt> = Vec::new();
-        let mut req = String::from("c16 t");
+        let mut req = String::from(if esc { "c16 te" } else { "c16 t" });
         let mut obs: Vec<String> = Vec::new();
         let total: usize = ops.iter().map(|o| if let TOp::Write(l, _) = o { *l } else { 16 }).sum();
         let deadline = Instant::now() + Duration::from_secs(25 + (total as u64 >> 16));
@@ -463,6 +535,11 @@ mod pty {
                 }
                 TOp::Drop => {
                     events.push(Evt::Drop(term.stats().send - s0));
+                    if esc {
+                        // the library queues its size query again, behind what the cut kept
+                        events.push(Evt::LibPayload(payloads.len()));
+                        payloads.push(SIZE_QUERY.to_vec());
+                    }
                     req.push_str(" d");
                     term.frames_drop();
                 }
@@ -563,10 +640,11 @@ mod pty {
         ops
     }
 
-    fn report(out: &mut Out, ops: &[TOp], profile: u64, peer_seed: u64, label: &str, o: SessionOutcome) {
+    fn report(out: &mut Out, ops: &[TOp], profile: u64, peer_seed: u64, esc: bool, label: &str, o: SessionOutcome) {
         let key = format!("{label} {}", o.executed.join(" "));
         out.case(&key, o.short_writes + o.eagain > 0 || o.dropped_payloads > 0);
         out.hist(&format!("pty:{label}"));
+        out.hist(if esc { "pty:size-from-escape-sequences" } else { "pty:size-from-ioctl" });
         if let Some(why) = &o.inconclusive {
             let why = why.split(':').next().unwrap_or("?");
             out.hist(&format!("pty:inconclusive:{why}"));
@@ -589,7 +667,7 @@ mod pty {
         if let Some((what, exp, got)) = o.failure {
             out.fail(
                 &format!("UnixTerminal on a pty: {what}"),
-                json!({"stage": "pty", "ops": ops.iter().map(|o| o.token()).collect::<Vec<_>>(), "peer_profile": profile, "peer_seed": peer_seed.to_string()}),
+                json!({"stage": "pty", "ops": ops.iter().map(|o| o.token()).collect::<Vec<_>>(), "peer_profile": profile, "peer_seed": peer_seed.to_string(), "size_from_escape": esc}),
                 json!(exp),
                 json!(got),
             );
@@ -617,8 +695,8 @@ mod pty {
         let mut total_eagain = 0usize;
         let mut inconclusive = 0u64;
         let mut consecutive_inconclusive = 0u64;
-        let mut run = |out: &mut Out, ops: Vec<TOp>, profile: u64, peer_seed: u64, label: &str, trace: bool| {
-            let o = run_session(&ops, profile, peer_seed, trace);
+        let mut run = |out: &mut Out, ops: Vec<TOp>, profile: u64, peer_seed: u64, esc: bool, label: &str, trace: bool| {
+            let o = run_session(&ops, profile, peer_seed, esc, trace);
             n_sessions += 1;
             total_bytes += o.bytes;
             total_writes += o.tty_writes;
@@ -630,13 +708,21 @@ mod pty {
             } else {
                 consecutive_inconclusive = 0;
             }
-            report(out, &ops, profile, peer_seed, label, o);
+            report(out, &ops, profile, peer_seed, esc, label, o);
             consecutive_inconclusive >= 3
         };
         let mut give_up = false;
         for (ops, profile) in fixed {
-            let seed = rng.next();
-            give_up = run(out, ops, profile, seed, "fixed", true);
+            // every white-box session in both size modes
+            for esc in [false, true] {
+                let seed = rng.next();
+                give_up = run(out, ops.clone(), profile, seed, esc, "fixed", true);
+            }
+        }
+        // the render loop's frame-drop policy (`Terminal::run_render`) against a stalled peer, both size modes
+        for (esc, stall) in [(false, true), (true, true), (false, false)] {
+            let o = run_render_session(esc, 140, 30, 100, stall, rng.next());
+            report_render(out, esc, stall, o);
         }
         let mut i = 0u64;
         while t0.elapsed() < budget && !give_up {
@@ -645,7 +731,14 @@ mod pty {
             let profile = if class == 2 { rng.below(2) } else { rng.below(4) };
             let ops = random_session(rng, class);
             let seed = rng.next();
-            give_up = run(out, ops, profile, seed, &format!("random-class{class}"), class < 2);
+            let esc = rng.chance(1, 3);
+            give_up = run(out, ops, profile, seed, esc, &format!("random-class{class}"), class < 2);
+            if cfg.thorough && i % 40 == 7 {
+                let esc = rng.chance(1, 2);
+                let stall = rng.chance(3, 4);
+                let o = run_render_session(esc, 60 + rng.below(200) as usize, 10 + rng.below(40) as u16, 40 + rng.below(90) as u16, stall, rng.next());
+                report_render(out, esc, stall, o);
+            }
             i += 1;
             if !cfg.thorough && i >= 30 {
                 break;
@@ -663,17 +756,249 @@ mod pty {
     }
 
     pub fn replay(_cfg: &Cfg, out: &mut Out, input: &Value) {
+        let esc = input["size_from_escape"].as_bool().unwrap_or(false);
+        let seed: u64 = input["peer_seed"].as_str().and_then(|s| s.parse().ok()).unwrap_or(1);
+        if input["stage"].as_str() == Some("render") {
+            let o = run_render_session(
+                esc, input["frames"].as_u64().unwrap_or(140) as usize, input["rows"].as_u64().unwrap_or(30) as u16,
+                input["cols"].as_u64().unwrap_or(100) as u16, input["stalled_peer"].as_bool().unwrap_or(true), seed,
+            );
+            report_render(out, esc, input["stalled_peer"].as_bool().unwrap_or(true), o);
+            return;
+        }
         let ops: Vec<TOp> = input["ops"].as_array().map(|a| a.iter().filter_map(|t| t.as_str().and_then(TOp::parse)).collect()).unwrap_or_default();
         let profile = input["peer_profile"].as_u64().unwrap_or(0);
-        let seed: u64 = input["peer_seed"].as_str().and_then(|s| s.parse().ok()).unwrap_or(1);
         // the kernel schedule is not reproducible: try a few times
         for _ in 0..5 {
             let before = out.failure_count;
-            let o = run_session(&ops, profile, seed, true);
-            report(out, &ops, profile, seed, "replay", o);
+            let o = run_session(&ops, profile, seed, esc, true);
+            report(out, &ops, profile, seed, esc, "replay", o);
             if out.failure_count > before {
                 break;
             }
+        }
+    }
+
+    // ------------------------------------------------------------------------------------------------
+    // `Terminal::run_render`: frames_drop after the handler has drawn, when frames_pending() > 32
+    // ------------------------------------------------------------------------------------------------
+
+    pub struct RenderOutcome {
+        pub inconclusive: Option<String>,
+        pub failure: Option<(String, String, String)>,
+        pub frames_drawn: usize,
+        pub frames_received: usize,
+        pub drops: usize,
+        pub max_pending: usize,
+        pub bytes: usize,
+        pub params: Value,
+    }
+
+    fn find(hay: &[u8], needle: &[u8], from: usize) -> Option<usize> {
+        if needle.is_empty() || hay.len() < needle.len() {
+            return None;
+        }
+        (from..=hay.len() - needle.len()).find(|i| &hay[*i..*i + needle.len()] == needle)
+    }
+
+    /// frame `k` paints every cell: row 1 with `'A' + (k/26 + k) % 26`, every other row with `'A' + k % 26`
+    /// (every cell differs from frame `k - 1`, so each frame is a full repaint whatever the renderer diffed against)
+    fn frame_letters(k: usize) -> (u8, u8) {
+        (b'A' + (k % 26) as u8, b'A' + ((k / 26 + k) % 26) as u8)
+    }
+
+    /// Frame integrity on the master side: the stream must be a sequence of complete frames
+    /// `SYNC_ON body SYNC_OFF` (body = one full repaint of a single frame number), frame numbers increasing and
+    /// ending with the last frame drawn; between frames only the library's size query may appear (escape mode).
+    fn check_render_stream(got: &[u8], on: &[u8], off: &[u8], esc: bool, rows: usize, cols: usize, n_frames: usize) -> Result<Vec<usize>, (String, String)> {
+        let show = |at: usize| String::from_utf8_lossy(&got[at.saturating_sub(16)..(at + 40).min(got.len())]).escape_default().to_string();
+        let mut pos = 0;
+        let mut ks: Vec<usize> = Vec::new();
+        let mut last = 0usize;
+        while pos < got.len() {
+            if esc && got[pos..].starts_with(SIZE_QUERY) {
+                pos += SIZE_QUERY.len();
+                continue;
+            }
+            if !got[pos..].starts_with(on) {
+                return Err(("a frame start (synchronized output on) or the size query between frames".into(), format!("offset {pos}: {}", show(pos))));
+            }
+            let body_at = pos + on.len();
+            let Some(end) = find(got, off, body_at) else {
+                return Err(("every frame that reaches the master is complete".into(), format!("frame starting at offset {pos} is never terminated: {}", show(pos))));
+            };
+            let body = &got[body_at..end];
+            if let Some(i) = find(body, on, 0) {
+                return Err(("frames are not interleaved or cut".into(), format!("frame start inside the frame at offset {}: {}", body_at + i, show(body_at + i))));
+            }
+            // strip CSI sequences, keep the painted characters
+            let mut letters: Vec<u8> = Vec::with_capacity(rows * cols);
+            let mut i = 0;
+            while i < body.len() {
+                if body[i] == 0x1b {
+                    if body.get(i + 1) != Some(&b'[') {
+                        return Err(("only CSI sequences inside a frame".into(), format!("offset {}: {}", body_at + i, show(body_at + i))));
+                    }
+                    i += 2;
+                    while i < body.len() && !(0x40..=0x7e).contains(&body[i]) {
+                        i += 1;
+                    }
+                    i += 1;
+                } else {
+                    letters.push(body[i]);
+                    i += 1;
+                }
+            }
+            if letters.len() != rows * cols {
+                return Err((format!("a complete frame paints {} cells", rows * cols), format!("frame at offset {pos} paints {} cells", letters.len())));
+            }
+            let (a, b) = (letters[0], letters[cols]);
+            let uniform = letters.iter().enumerate().all(|(i, c)| *c == if i / cols == 1 { b } else { a });
+            if !uniform || !a.is_ascii_uppercase() || !b.is_ascii_uppercase() {
+                return Err(("all cells of a frame belong to one frame number".into(), format!("frame at offset {pos} mixes contents: {}", show(body_at))));
+            }
+            // frame number modulo 676, then the smallest number after the previous frame
+            let k0 = (a - b'A') as usize;
+            let hi = ((b as usize + 26 * 26) - a as usize) % 26;
+            let kmod = hi * 26 + k0;
+            let mut k = kmod;
+            while k <= last {
+                k += 676;
+            }
+            debug_assert_eq!(frame_letters(k), (a, b));
+            if k > n_frames {
+                return Err(("frame numbers increase and were drawn by the handler".into(), format!("frame at offset {pos} has number {kmod} (mod 676) after frame {last}, {n_frames} drawn")));
+            }
+            last = k;
+            ks.push(k);
+            pos = end + off.len();
+        }
+        if last != n_frames {
+            return Err((format!("the last frame drawn ({n_frames}) reaches the master"), format!("last frame received: {last}")));
+        }
+        Ok(ks)
+    }
+
+    pub fn run_render_session(esc: bool, n_frames: usize, rows: u16, cols: u16, stall: bool, peer_seed: u64) -> RenderOutcome {
+        use surf_n_term::{Cell, Face, SurfaceMut, TerminalAction, DecMode};
+        let mut o = RenderOutcome {
+            inconclusive: None, failure: None, frames_drawn: 0, frames_received: 0, drops: 0, max_pending: 0, bytes: 0,
+            params: json!({"stage": "render", "frames": n_frames, "rows": rows, "cols": cols, "stalled_peer": stall,
+                "size_from_escape": esc, "peer_seed": peer_seed.to_string()}),
+        };
+        let (rig, slave) = match Rig::open(if stall { 0 } else { 2 }, peer_seed, esc, rows, cols) {
+            Ok(x) => x,
+            Err(e) => {
+                o.inconclusive = Some(format!("no-pty:{e}"));
+                return o;
+            }
+        };
+        let shared = rig.shared.clone();
+        let (mut term, s0) = match rig.boot(slave) {
+            Ok(x) => x,
+            Err(e) => {
+                o.inconclusive = Some(e);
+                rig.finish();
+                return o;
+            }
+        };
+        let mut enc = TTYEncoder::new(term.capabilities().clone());
+        let mut on = Vec::new();
+        let mut off = Vec::new();
+        enc.encode(&mut on, TerminalCommand::DecModeSet { enable: true, mode: DecMode::SynchronizedOutput }).unwrap();
+        enc.encode(&mut off, TerminalCommand::DecModeSet { enable: false, mode: DecMode::SynchronizedOutput }).unwrap();
+        if stall {
+            shared.pause.store(true, Ordering::SeqCst);
+        }
+        let mut k = 0usize;
+        let mut drops = 0usize;
+        let mut max_pending = 0usize;
+        let run = guarded(|| {
+            term.run_render(|term, _event, mut surf| {
+                let pending = term.frames_pending();
+                max_pending = max_pending.max(pending);
+                if pending > 32 {
+                    drops += 1; // TERMINAL_FRAMES_DROP: the loop drops after this handler returns
+                }
+                k += 1;
+                let (a, b) = frame_letters(k);
+                surf.fill_with(|pos, _| Cell::new_char(Face::default(), (if pos.row == 1 { b } else { a }) as char));
+                Ok::<_, surf_n_term::Error>(if k == n_frames { TerminalAction::Quit(()) } else { TerminalAction::Sleep(Duration::ZERO) })
+            })
+        });
+        shared.pause.store(false, Ordering::SeqCst);
+        o.frames_drawn = k;
+        o.drops = drops;
+        o.max_pending = max_pending;
+        match run {
+            Err(()) => {
+                o.failure = Some(("run_render panicked".into(), "no panic".into(), "panic".into()));
+                std::mem::forget(term);
+                rig.finish();
+                return o;
+            }
+            Ok(Err(e)) => {
+                o.inconclusive = Some(format!("run-render-error:{e:?}"));
+            }
+            Ok(Ok(())) => {}
+        }
+        // send what is still queued, wait for the peer
+        let deadline = Instant::now() + Duration::from_secs(40);
+        while o.inconclusive.is_none() && term.frames_pending() > 0 {
+            if Instant::now() > deadline {
+                o.inconclusive = Some("drain-timeout".into());
+                break;
+            }
+            if let Err(e) = term.poll(Some(Duration::from_millis(2))) {
+                o.inconclusive = Some(format!("poll-error:{e:?}"));
+            }
+        }
+        if o.inconclusive.is_none() {
+            let send = term.stats().send;
+            loop {
+                let c = shared.count.load(Ordering::SeqCst);
+                if c == send || shared.idle.load(Ordering::SeqCst) >= 20 {
+                    break;
+                }
+                if Instant::now() > deadline + Duration::from_secs(20) {
+                    o.inconclusive = Some("peer-timeout".into());
+                    break;
+                }
+                std::thread::sleep(Duration::from_millis(1));
+            }
+        }
+        if o.inconclusive.is_none() {
+            let got: Vec<u8> = shared.received.lock().unwrap()[s0..].to_vec();
+            o.bytes = got.len();
+            match check_render_stream(&got, &on, &off, esc, rows as usize, cols as usize, k) {
+                Ok(ks) => o.frames_received = ks.len(),
+                Err((exp, g)) => o.failure = Some(("render loop: frame integrity on the pty master".into(), exp, g)),
+            }
+        }
+        drop(term);
+        rig.finish();
+        o
+    }
+
+    fn report_render(out: &mut Out, esc: bool, stall: bool, o: RenderOutcome) {
+        let key = format!("render {}", o.params);
+        out.case(&key, o.drops > 0);
+        out.hist("render:sessions");
+        out.hist(if esc { "render:size-from-escape-sequences" } else { "render:size-from-ioctl" });
+        if let Some(why) = &o.inconclusive {
+            let why = why.split(':').next().unwrap_or("?");
+            out.hist(&format!("render:inconclusive:{why}"));
+            eprintln!("c16 render session inconclusive ({why}); not counted as a violation");
+        } else if o.drops > 0 {
+            out.hist("render:sessions-with-frames_drop");
+        } else if stall {
+            out.hist("render:stalled-but-no-drop-triggered");
+        }
+        out.extra(&format!("render_session_{}", out.evaluations), json!({"params": o.params, "frames_drawn": o.frames_drawn,
+            "frames_received_complete": o.frames_received, "times_over_threshold": o.drops, "max_frames_pending": o.max_pending,
+            "bytes": o.bytes, "inconclusive": o.inconclusive}));
+        if let Some((what, exp, got)) = o.failure {
+            out.fail(&format!("UnixTerminal::run_render on a pty: {what}"), o.params, json!(exp), json!(got));
         }
     }
 }
@@ -748,8 +1073,10 @@ impl Fifo {
 }
 
 pub struct SeqResult {
-    /// per-call observations, in the format of the Lean driver
+    /// per-call observations on the byte level (`<read result>/<len>`), in the format of the Lean driver
     pub answer: String,
+    /// per-call observations of the representation (`<chunks_count>/<E|N>/<as_slice>`): chunking only
+    pub answer_repr: String,
     /// first violation of the property found by the byte-deque oracle: (what, expected, got)
     pub failure: Option<(String, String, String)>,
     pub max_chunks: usize,
@@ -759,6 +1086,7 @@ pub struct SeqResult {
 /// run one operation sequence on a fresh real `IOQueue`
 pub fn run_seq(ops: &[Op]) -> SeqResult {
     let mut obs: Vec<String> = Vec::new();
+    let mut obs_repr: Vec<String> = Vec::new();
     let mut failure: Option<(String, String, String)> = None;
     let mut max_chunks = 0;
     let mut dropped = 0;
@@ -874,17 +1202,12 @@ pub fn run_seq(ops: &[Op]) -> SeqResult {
             }
         }
         max_chunks = max_chunks.max(q.chunks_count());
-        obs.push(format!(
-            "{}/{}/{}/{}/{}",
-            read_out.as_ref().map(|o| hex(o)).unwrap_or_else(|| "-".into()),
-            q.len(),
-            q.chunks_count(),
-            if q.is_empty() { "E" } else { "N" },
-            hex(&slice_after)
-        ));
+        obs.push(format!("{}/{}", read_out.as_ref().map(|o| hex(o)).unwrap_or_else(|| "-".into()), q.len()));
+        obs_repr.push(format!("{}/{}/{}", q.chunks_count(), if q.is_empty() { "E" } else { "N" }, hex(&slice_after)));
     }
     if panicked {
         obs.push("panic".into());
+        obs_repr.push("panic".into());
     } else if failure.is_none() {
         // final drain: exactly the unread bytes must come out, and len() must follow
         let mut got: Vec<u8> = Vec::new();
@@ -911,11 +1234,14 @@ pub fn run_seq(ops: &[Op]) -> SeqResult {
             fail(&mut failure, ops.len(), "len() after draining", "0".into(), format!("{}", q.len()));
         }
     }
-    SeqResult { answer: obs.join(" "), failure, max_chunks, dropped }
+    SeqResult { answer: obs.join(" "), answer_repr: obs_repr.join(" "), failure, max_chunks, dropped }
 }
 
-fn request(ops: &[Op]) -> String {
-    let mut s = String::from("c16 q");
+/// `kind`: `qa` = behaviour on the byte level (read results, len), `qr` = representation only (chunking:
+/// chunks_count, is_empty, as_slice). A replay whose mismatching requests are all `c16 qr …` shows a
+/// difference in chunking only — same bytes, same len, same read results.
+fn request(kind: &str, ops: &[Op]) -> String {
+    let mut s = format!("c16 {kind}");
     for op in ops {
         s.push(' ');
         s.push_str(&op.token());
@@ -958,8 +1284,9 @@ fn shrink(ops: &[Op]) -> Vec<Op> {
 
 fn check_seq(out: &mut Out, ops: &[Op], label: &str) {
     let res = run_seq(ops);
-    let req = request(ops);
+    let req = request("qa", ops);
     out.corr(&req, &res.answer);
+    out.corr(&request("qr", ops), &res.answer_repr);
     let nontrivial = res.max_chunks >= 2 || res.dropped > 0;
     out.case(&req, nontrivial);
     out.hist(&format!("queue:{label}"));
@@ -968,7 +1295,7 @@ fn check_seq(out: &mut Out, ops: &[Op], label: &str) {
         out.hist("queue:dropped_bytes>0");
     }
     if out.evaluations % 5273 == 1 {
-        out.sample(json!({"request": req, "impl": res.answer}));
+        out.sample(json!({"request": req, "impl": res.answer, "impl_representation": res.answer_repr}));
     }
     if res.failure.is_some() {
         let small = shrink(ops);
@@ -976,7 +1303,7 @@ fn check_seq(out: &mut Out, ops: &[Op], label: &str) {
         let (what, exp, got) = r2.failure.unwrap_or_else(|| res.failure.clone().unwrap());
         out.fail(
             &format!("IOQueue: {what}"),
-            json!({"stage": "queue", "ops": small.iter().map(|o| o.token()).collect::<Vec<_>>(), "request": request(&small)}),
+            json!({"stage": "queue", "ops": small.iter().map(|o| o.token()).collect::<Vec<_>>(), "request": request("qa", &small)}),
             json!(exp),
             json!(got),
         );
@@ -1014,7 +1341,7 @@ fn random_seq(rng: &mut Rng, thorough: bool) -> Vec<Op> {
                 0 => 0,
                 1 => pending,
                 2 => pending + 1 + rng.below(4) as usize,
-                3 => 1 << 20,
+                3 => *rng.pick(&[1usize << 20, usize::MAX, usize::MAX - 1, usize::MAX - pending, (usize::MAX >> 1) + 1]),
                 _ => rng.below(pending as u64 + 2) as usize,
             }
         };
@@ -1025,7 +1352,7 @@ fn random_seq(rng: &mut Rng, thorough: bool) -> Vec<Op> {
         } else if r < f {
             Op::Flush
         } else if r < rd {
-            Op::Read(small(rng, pending.min(12)))
+            Op::Read(small(rng, pending.min(12)).min(1 << 20)) // the harness allocates the read buffer
         } else if r < c {
             Op::Consume(small(rng, pending.min(12)))
         } else if r < k {
@@ -1060,6 +1387,11 @@ fn corner_cases() -> Vec<Vec<Op>> {
         // consume across / beyond the chunk end
         vec![w(&[1, 2, 3]), Flush, w(&[4, 5]), Consume(2), Consume(1), Consume(5), Read(3)],
         vec![w(&[1, 2, 3]), Flush, w(&[4, 5]), ConsumeWith(7), ConsumeWith(1), ConsumeWithErr, ConsumeWith(1), ConsumeWith(0)],
+        // amounts near usize::MAX after a partial read (`offset + amt` used to overflow)
+        vec![w(&[1, 2, 3]), Read(1), Consume(usize::MAX), w(&[4]), Read(9)],
+        vec![w(&[1, 2, 3]), Consume(1), ConsumeWith(usize::MAX), w(&[4]), Flush, w(&[5]), Read(9), Read(9)],
+        vec![w(&[1, 2, 3]), Flush, w(&[4, 5]), Read(2), Consume(usize::MAX - 1), Consume(usize::MAX - 2), Read(usize::MAX.min(16))],
+        vec![w(&[1, 2, 3]), ConsumeWith(2), Consume(usize::MAX - 2), Consume(usize::MAX)],
         // write after flush must start a new chunk, not extend the front one
         vec![w(&[1]), Flush, w(&[2]), Flush, w(&[3]), Read(1), Read(1), Read(1), Read(1)],
         // consume exactly to the chunk end then write (no flush in between)
@@ -1130,7 +1462,7 @@ fn replay(cfg: &Cfg, out: &mut Out, v: &Value) {
                 .unwrap_or_default();
             check_seq(out, &ops, "replay");
         }
-        Some("pty") => pty::replay(cfg, out, input),
+        Some("pty") | Some("render") => pty::replay(cfg, out, input),
         _ => {}
     }
 }
@@ -1155,6 +1487,7 @@ fn main() {
         "queue stage: hand-picked corner sequences + every sequence up to the exhaustive depth over a 7-call alphabet + random \
          sequences (1..36 calls quick / 1..60 thorough, payloads 0..200 bytes, consume arguments around and beyond the slice end); \
          non-trivial = at least two chunks existed at some point or bytes were dropped; distinct by request. \
-         pty stage: sessions on a real pseudo-terminal, see extra.pty",
+         pty stage: sessions on a real pseudo-terminal in both size modes (extra.pty) and run_render sessions against a stalled \
+         peer (extra.render_session_*); non-trivial = short writes / EAGAIN occurred or frames were dropped",
     );
 }
